@@ -80,7 +80,34 @@ def match_f6(f: Failure) -> bool:
 
 
 # F6 (unlabeled choice in an itext-requiring list) is repaired: no matcher, a recurrence is a VIOLATION.
-MATCHERS = {}
+
+
+def osm_translated_tag_suffixes(form) -> set[str]:
+    """`/<osm question>/<tag>:label` for every tag with a translated label (label::lang cell) of the
+    tag list of an osm question - the shape of F45."""
+    tags: dict[str, list[dict]] = {}
+    for t in form.get("osm") or []:
+        tags.setdefault(str(t.get("list_name")), []).append(t)
+    out = set()
+    for row in form.get("survey") or []:
+        ty = str(row.get("type", "")).split(" ")
+        if len(ty) == 2 and ty[0] == "osm":
+            for t in tags.get(ty[1], []):
+                if any(k.startswith("label::") and v not in (None, "") for k, v in t.items()):
+                    out.add(f"/{row.get('name')}/{t.get('name')}:label")
+    return out
+
+
+def match_f45(f: Failure) -> bool:
+    """Every dangling id is the label id of an osm tag with a translated label."""
+    if f.kind != "dangling-ref":
+        return False
+    bad = set(f.extra.get("dangling", []))
+    sufs = osm_translated_tag_suffixes(f.case["form"])
+    return bool(bad) and all(any(b.endswith(sx) for sx in sufs) for b in bad)
+
+
+MATCHERS = {"F45-osm-tag-itext": match_f45}
 
 
 # ------------------------------------------------------------------------------ one case
@@ -250,6 +277,15 @@ def directed_cases(rng):
                 else:
                     kw["default_language"] = dl
                 out.append({"form": form, "kw": kw})
+    # F45: osm question whose tags have translated labels (tags are not visited by _setup_translations)
+    for tagcols in (["label::en", "label::fr"], ["label::en"], ["label"]):
+        tags = []
+        for i, nm in enumerate(["name", "addr"]):
+            t = {"list_name": "btags", "name": nm}
+            for c in (tagcols[:1] if i else tagcols):
+                t[c] = "T"
+            tags.append(t)
+        out.append({"form": {"survey": [{"type": "osm btags", "name": "b", "label::en": "B"}], "osm": tags}, "kw": {}})
     rng.shuffle(out)
     return out
 
